@@ -6,6 +6,7 @@ pub mod c03;
 pub mod c04;
 pub mod c05;
 pub mod c06;
+pub mod c09;
 pub mod c10;
 pub mod c12;
 pub mod c14;
@@ -23,6 +24,7 @@ pub fn run(ctx: &Ctx) -> Report {
     "C04" => c04::run(ctx),
     "C05" => c05::run(ctx),
     "C06" => c06::run(ctx),
+    "C09" => c09::run(ctx),
     "C10" => c10::run(ctx),
     "C12" => c12::run(ctx),
     "C13" => c03::run_c13(ctx),
